@@ -24,6 +24,10 @@
   * `closedFace_orbit`, `ClosedFace.rotate` — a closed cycle is exactly what `orbit_transac(FaceLinear, ·)`
                                     enumerates from any of its darts (uses C03's BFS theorem).
 
+  * `C13_earclip_frame`           — ear clipping on a closed face: well-formed result, every β image of every dart
+                                    outside face ∪ spares unchanged (other faces untouched), β2 of every face dart (the
+                                    neighbour across each side) unchanged, spare darts 2-linked pair by pair.
+
   NOT PROVED
   * the exact face structure after EAR CLIPPING (each cut ear is a triangle of the intended darts): needs the
     invariant "the kernel's `darts` vector is the current face in cyclic order" through the vector surgery
@@ -966,6 +970,221 @@ theorem C13_fan_cell_structure (cfg : Cfg Val) (m m' : Map Val) (face : Nat) (nd
     (fun x hx => ⟨(hsp x (hsub.subset hx)).1, fun hh => (hsp x (hsub.subset hx)).2 ((hiff x).1 hh)⟩) hfrom
   exact ⟨i1.wf, _, L, hin _ hmem, hcs, hiff, r⟩
 
+/-! ## ear clipping: the other faces are untouched, the sides keep their neighbours -/
+
+/-- `D` is closed under the non-null β0 / β1 images -/
+def DClosed (D : Nat → Prop) (m : Map Val) : Prop :=
+  ∀ y, D y → (m.β 1 y = 0 ∨ D (m.β 1 y)) ∧ (m.β 0 y = 0 ∨ D (m.β 0 y))
+
+/-- a 1-sew / 1-unsew shaped update inside `D` keeps `D` closed and touches nothing outside -/
+theorem dstep1 {D : Nat → Prop} {m m' : Map Val} {r l l' r' : Nat}
+    (eff : ∀ i d, m'.β i d = if 0 = i ∧ r = d then l else if 1 = i ∧ l' = d then r' else m.β i d)
+    (hr : D r) (hl' : D l') (hl : l = 0 ∨ D l) (hr' : r' = 0 ∨ D r') (hc : DClosed D m) :
+    DClosed D m' ∧ (∀ i y, ¬ D y → m'.β i y = m.β i y) ∧ (∀ y, m'.β 2 y = m.β 2 y) := by
+  refine ⟨fun y hy => ⟨?_, ?_⟩, fun i y hy => ?_, fun y => ?_⟩
+  · rw [eff, if_neg (fun hh => absurd hh.1 (by decide))]
+    by_cases c : l' = y
+    · rw [if_pos ⟨rfl, c⟩]; exact hr'
+    · rw [if_neg (fun hh => c hh.2)]; exact (hc y hy).1
+  · rw [eff]
+    by_cases c : r = y
+    · rw [if_pos ⟨rfl, c⟩]; exact hl
+    · rw [if_neg (fun hh => c hh.2), if_neg (fun hh => absurd hh.1 (by decide))]; exact (hc y hy).2
+  · rw [eff, if_neg (fun (hh : 0 = i ∧ r = y) => hy (hh.2 ▸ hr)), if_neg (fun (hh : 1 = i ∧ l' = y) => hy (hh.2 ▸ hl'))]
+  · rw [eff, if_neg (fun hh => absurd hh.1 (by decide)), if_neg (fun hh => absurd hh.1 (by decide))]
+
+theorem dstep2 {D : Nat → Prop} {m m' : Map Val} {l r : Nat}
+    (eff : ∀ i d, m'.β i d = if 2 = i ∧ r = d then l else if 2 = i ∧ l = d then r else m.β i d)
+    (hl : D l) (hr : D r) (hc : DClosed D m) :
+    DClosed D m' ∧ (∀ i y, ¬ D y → m'.β i y = m.β i y) := by
+  refine ⟨fun y hy => ?_, fun i y hy => ?_⟩
+  · rw [eff, eff, if_neg (fun hh => absurd hh.1 (by decide)), if_neg (fun hh => absurd hh.1 (by decide)),
+      if_neg (fun hh => absurd hh.1 (by decide)), if_neg (fun hh => absurd hh.1 (by decide))]
+    exact hc y hy
+  · rw [eff, if_neg (fun (hh : 2 = i ∧ r = y) => hy (hh.2 ▸ hr)), if_neg (fun (hh : 2 = i ∧ l = y) => hy (hh.2 ▸ hl))]
+
+theorem getD_mem_of_ne {l : List Nat} {i : Nat} (h : l.getD i 0 ≠ 0) : l.getD i 0 ∈ l := by
+  by_cases hi : i < l.length
+  · rw [List.getD_eq_getElem?_getD, List.getElem?_eq_getElem hi]; exact List.getElem_mem hi
+  · exfalso; apply h
+    rw [List.getD_eq_getElem?_getD, List.getElem?_eq_none (by omega)]; rfl
+
+theorem dartSurgery_mem (darts : List Nat) (ear nd2 x : Nat) (h : x ∈ dartSurgery darts ear nd2) :
+    x ∈ darts ∨ x = nd2 := by
+  unfold dartSurgery swapRemove at h
+  have h1 := List.dropLast_subset _ h
+  rcases List.mem_or_eq_of_mem_set h1 with h2 | h2
+  · simp only [List.mem_append, List.mem_singleton] at h2
+    rcases h2 with h3 | h3
+    · exact Or.inl (List.mem_of_mem_eraseIdx h3)
+    · exact Or.inr h3
+  · -- the last element of `erase ++ [nd2]` is `nd2`
+    right
+    rw [h2, List.getLastD_eq_getLast?]; simp
+
+/-- the ear-clipping loop inside a dart set `D` closed under β0 / β1 (the face and the spare darts): well-formedness,
+    nothing outside `D` is touched, β2 only changes at the spare darts, which end up 2-linked pair by pair -/
+theorem earclipLoop_frame (cfg : Cfg Val) (nn : Nat) (inside : P2 → P2 → P2 → Bool) (D : Nat → Prop) :
+    ∀ (chunks : List (Nat × Nat)) (darts : List Nat) (vs : List P2) (m m' : Map Val),
+      Inv n u m → DClosed D m → (∀ x ∈ darts, D x) → (sparesOf chunks).Nodup →
+      (∀ c ∈ chunks, Live n u c.1 ∧ Live n u c.2 ∧ D c.1 ∧ D c.2) →
+      run (earclipLoop cfg nn inside chunks darts vs) m = (.ok (), m') →
+      Inv n u m' ∧ (∀ i y, ¬ D y → m'.β i y = m.β i y) ∧
+      (∀ y, y ∉ sparesOf chunks → m'.β 2 y = m.β 2 y) ∧
+      (∀ c ∈ chunks, m'.β 2 c.1 = c.2 ∧ m'.β 2 c.2 = c.1) := by
+  intro chunks
+  induction chunks with
+  | nil =>
+      intro darts vs m m' hi _ _ _ _ h
+      unfold earclipLoop at h
+      by_cases h3 : vs.length = 3
+      · simp [h3] at h; rw [← h]
+        exact ⟨hi, fun _ _ _ => rfl, fun _ _ => rfl, by simp⟩
+      · simp [h3] at h
+  | cons x rest ih =>
+      intro darts vs m m' hi hcl hdarts hsnd hsp h
+      obtain ⟨nd1, nd2⟩ := x
+      obtain ⟨l1, l2, D1, D2⟩ := hsp (nd1, nd2) (by simp)
+      rw [sparesOf_cons] at hsnd
+      simp only [List.nodup_cons, List.mem_cons, not_or] at hsnd
+      have hne : nd1 ≠ nd2 := hsnd.1.1
+      unfold earclipLoop at h
+      cases hf : findEar inside vs with
+      | none => simp [hf] at h
+      | some ear =>
+          simp only [hf] at h
+          obtain ⟨_, hE1, h⟩ := rB_ok hi h
+          obtain ⟨_, hE2, h⟩ := rB_ok hi h
+          obtain ⟨_, m1, s1, h⟩ := run_bind_ok h
+          obtain ⟨i1, lb0, _, e1⟩ := oneUnsew2_eff cfg nn hi s1
+          have lE1 : Live n u (darts.getD ear 0) := hi.live_of_image (by omega) hE1 lb0.1
+          have DE1 : D (darts.getD ear 0) := hdarts _ (getD_mem_of_ne lE1.1)
+          have Db0 : D (m.β 0 (darts.getD ear 0)) := by
+            rcases (hcl _ DE1).2 with c | c
+            · exact absurd c lb0.1
+            · exact c
+          have hback : m.β 1 (m.β 0 (darts.getD ear 0)) = darts.getD ear 0 :=
+            hi.wf.inv10 _ (by rw [hi.n_eq]; exact hE1) lb0.1
+          rw [hback] at e1
+          obtain ⟨c1, g1, _⟩ := dstep1 e1 DE1 Db0 (Or.inl rfl) (Or.inl rfl) hcl
+          obtain ⟨_, m2, s2, h⟩ := run_bind_ok h
+          obtain ⟨i2, lE2, lb1', e2⟩ := oneUnsew2_eff cfg nn i1 s2
+          have DE2 : D (darts.getD ((ear + 1) % vs.length) 0) := hdarts _ (getD_mem_of_ne lE2.1)
+          have hb1eq : m1.β 1 (darts.getD ((ear + 1) % vs.length) 0) = m.β 1 (darts.getD ((ear + 1) % vs.length) 0) := by
+            rw [e1, if_neg (fun hh => absurd hh.1 (by decide))]
+            by_cases hc : m.β 0 (darts.getD ear 0) = darts.getD ((ear + 1) % vs.length) 0
+            · exfalso
+              have := lb1'.1
+              rw [e1, if_neg (fun hh => absurd hh.1 (by decide)), if_pos ⟨rfl, hc⟩] at this
+              exact this rfl
+            · rw [if_neg (fun hh => hc hh.2)]
+          rw [hb1eq] at lb1' e2
+          have Db1 : D (m.β 1 (darts.getD ((ear + 1) % vs.length) 0)) := by
+            rcases (hcl _ DE2).1 with c | c
+            · exact absurd c lb1'.1
+            · exact c
+          obtain ⟨c2, g2, _⟩ := dstep1 e2 Db1 DE2 (Or.inl rfl) (Or.inl rfl) c1
+          obtain ⟨_, m3, s3, h⟩ := run_bind_ok h
+          obtain ⟨i3, _, _, e3⟩ := oneSew2_eff cfg nn i2 lE2 l1 s3
+          obtain ⟨c3, g3, _⟩ := dstep1 e3 D1 DE2 (Or.inr DE2) (Or.inr D1) c2
+          obtain ⟨_, m4, s4, h⟩ := run_bind_ok h
+          obtain ⟨i4, _, _, e4⟩ := oneSew2_eff cfg nn i3 l1 lE1 s4
+          obtain ⟨c4, g4, _⟩ := dstep1 e4 DE1 D1 (Or.inr D1) (Or.inr DE1) c3
+          obtain ⟨_, m5, s5, h⟩ := run_bind_ok h
+          obtain ⟨i5, _, _, e5⟩ := oneSew2_eff cfg nn i4 lb0 l2 s5
+          obtain ⟨c5, g5, _⟩ := dstep1 e5 D2 Db0 (Or.inr Db0) (Or.inr D2) c4
+          obtain ⟨_, m6, s6, h⟩ := run_bind_ok h
+          obtain ⟨i6, _, _, e6⟩ := oneSew2_eff cfg nn i5 l2 lb1' s6
+          obtain ⟨c6, g6, _⟩ := dstep1 e6 Db1 D2 (Or.inr D2) (Or.inr Db1) c5
+          obtain ⟨_, m7, s7, h⟩ := run_bind_ok h
+          obtain ⟨i7, _, _, e7⟩ := twoSew2_eff cfg nn i6 l1 l2 hne s7
+          obtain ⟨c7, g7⟩ := dstep2 e7 D1 D2 c6
+          have b2 : ∀ y, m7.β 2 y = if nd2 = y then nd1 else if nd1 = y then nd2 else m.β 2 y := by
+            intro y
+            rw [e7, e6, e5, e4, e3, e2, e1]
+            simp only [show ¬ (0 = 2) by decide, show ¬ (1 = 2) by decide, false_and, if_false, true_and]
+          have hdarts' : ∀ x ∈ dartSurgery darts ear nd2, D x := by
+            intro x hx
+            rcases dartSurgery_mem darts ear nd2 x hx with c | c
+            · exact hdarts x c
+            · rw [c]; exact D2
+          obtain ⟨j1, j2, j3, j4⟩ := ih _ _ m7 m' i7 c7 hdarts' hsnd.2.2 (fun c hc => hsp c (by simp [hc])) h
+          refine ⟨j1, fun i y hy => ?_, fun y hy => ?_, fun c hc => ?_⟩
+          · rw [j2 i y hy, g7 i y hy, g6 i y hy, g5 i y hy, g4 i y hy, g3 i y hy, g2 i y hy, g1 i y hy]
+          · rw [sparesOf_cons] at hy
+            simp only [List.mem_cons, not_or] at hy
+            rw [j3 y hy.2.2, b2, if_neg (fun hh => hy.2.1 hh.symm), if_neg (fun hh => hy.1 hh.symm)]
+          · simp only [List.mem_cons] at hc
+            rcases hc with rfl | hc
+            · exact ⟨by rw [j3 _ hsnd.1.2, b2, if_neg (fun hh => hne hh.symm), if_pos rfl],
+                by rw [j3 _ hsnd.2.1, b2, if_pos rfl]⟩
+            · exact j4 c hc
+
+/-- **C13, frame for ear clipping**: on a closed face `a :: rest` with live, pairwise distinct spare darts outside the
+    face, a successful `earclip_cell_*` leaves a well-formed map in which every β image of every dart outside the face
+    and the spare darts is unchanged (other faces untouched), β2 of every face dart — the neighbour across each side of
+    the polygon — is unchanged, and the spare darts are 2-linked pair by pair (the new diagonals) -/
+theorem C13_earclip_frame (cfg : Cfg Val) (inside : P2 → P2 → P2 → Bool) (m m' : Map Val) (face : Nat)
+    (nds : List Nat) (a : Nat) (rest : List Nat) (hwf : WF 3 m) (hc : ClosedFace m a rest) (hf : face ∈ a :: rest)
+    (hsp : ∀ d ∈ nds, C01.InUse m d ∧ m.isFree 3 d = true ∧ d ∉ a :: rest) (hnd : nds.Nodup)
+    (h : run (earclipCell cfg m.n inside face nds) m = (.ok (), m')) :
+    WF 3 m' ∧
+    (∀ i y, y ∉ a :: rest → y ∉ nds → m'.β i y = m.β i y) ∧
+    (∀ y, y ∉ sparesOf (chunks2 nds) → m'.β 2 y = m.β 2 y) ∧
+    (∀ c ∈ chunks2 nds, m'.β 2 c.1 = c.2 ∧ m'.β 2 c.2 = c.1) := by
+  unfold earclipCell at h
+  obtain ⟨darts, h1, h3⟩ := ro_bind_ok (readOnly_orbit2 m.n .faceLinear face) h
+  obtain ⟨vals, m2, h2, h4⟩ := run_bind_ok h3
+  obtain ⟨_, hm2⟩ := faceVertices_length m.n _ _ _ _ h2
+  subst hm2
+  clear h h3
+  cases hcr : checkRequirements darts.length nds.length with
+  | error e => simp [hcr] at h4
+  | ok v =>
+      simp only [hcr] at h4
+      obtain ⟨_, hin⟩ := closedFace_orbit hwf hc hf (hc.lt hwf hf) darts h1
+      have hsub := sparesOf_chunks2_sublist nds
+      -- the face and the spare darts are closed under β0 / β1
+      have hD : DClosed (fun y => y ∈ a :: rest ∨ y ∈ nds) m2 := by
+        intro y hy
+        rcases hy with hy | hy
+        · obtain ⟨L, hcy, _, hinL, hcov⟩ := hc.rotate hy
+          constructor
+          · right; left
+            have := hcy.chain
+            cases L with
+            | nil => simp only [List.nil_append, B1Chain] at this; rw [this.1]; exact hy
+            | cons z L' => rw [this.1]; exact hinL z (by simp)
+          · -- β0 y is the predecessor on the cycle
+            by_cases c : m2.β 0 y = 0
+            · exact Or.inl c
+            · right; left
+              have hylt := hc.lt hwf hy
+              have hb := hwf.inv10 y hylt c
+              -- the predecessor is the last dart of the face read from `y`
+              cases L with
+              | nil =>
+                  have := hcy.chain
+                  simp only [List.nil_append, B1Chain] at this
+                  have e0 := hwf.inv01 y hylt (by rw [this.1]; exact hc.nz y hy)
+                  rw [this.1] at e0; rw [e0]; exact hy
+              | cons z L' =>
+                  have hl := hcy.last (by simp)
+                  have hzlt : (z :: L').getLast (by simp) < m2.n :=
+                    hwf.toSized.lt_of_β_ne (i := 1) (by omega) (by rw [hl]; exact hc.nz y hy)
+                  have e0 := hwf.inv01 _ hzlt (by rw [hl]; exact hc.nz y hy)
+                  rw [hl] at e0; rw [e0]
+                  exact hinL _ (List.getLast_mem _)
+        · have hfr := (hsp y hy).2.1
+          exact ⟨Or.inl ((isFree_iff m2 3 y).1 hfr 1 (by omega)), Or.inl ((isFree_iff m2 3 y).1 hfr 0 (by omega))⟩
+      obtain ⟨j1, j2, j3, j4⟩ := earclipLoop_frame (n := m2.n) (u := m2.u) cfg m2.n inside
+        (fun y => y ∈ a :: rest ∨ y ∈ nds) (chunks2 nds) darts _ m2 m' (Inv.of_wf hwf) hD
+        (fun x hx => Or.inl (hin x hx)) (hnd.sublist hsub)
+        (fun c hcm => by
+          obtain ⟨p, q⟩ := chunks2_mem nds c hcm
+          exact ⟨(hsp _ p).1, (hsp _ q).1, Or.inr p, Or.inr q⟩) h4
+      exact ⟨j1.wf, fun i y hy1 hy2 => j2 i y (fun hh => hh.elim hy1 hy2), j3, j4⟩
+
 /-! ## non-vacuity -/
 
 theorem ok_of_fst {p : P Val Unit} {m : Map Val} (h : (run p m).1 = .ok ()) : run p m = (.ok (), (run p m).2) := by
@@ -1014,5 +1233,14 @@ example : ∃ s L, s ∈ [1, 2, 3, 4, 5] ∧ ClosedFace d7Map s L ∧ (∀ x, x 
   (C13_fan_cell_structure _ d7Map _ 1 [6, 7, 8, 9] 1 [2, 3, 4, 5] (by decide +kernel)
     ⟨by decide +kernel, by decide, by decide⟩ (by decide) (by decide +kernel) (by decide)
     (ok_of_fst (by decide +kernel))).2
+
+/-- the frame theorem for ear clipping on the pentagon: the diagonals 6–7 and 8–9 are 2-linked, nothing outside
+    the face and the spare darts moves -/
+example : ∀ c ∈ [(6, 7), (8, 9)],
+    (run (earclipCell (stdCfg 3 0) d7Map.n insideCCW 1 [6, 7, 8, 9]) d7Map).2.β 2 c.1 = c.2 ∧
+    (run (earclipCell (stdCfg 3 0) d7Map.n insideCCW 1 [6, 7, 8, 9]) d7Map).2.β 2 c.2 = c.1 :=
+  (C13_earclip_frame _ _ d7Map _ 1 [6, 7, 8, 9] 1 [2, 3, 4, 5] (by decide +kernel)
+    ⟨by decide +kernel, by decide, by decide⟩ (by decide) (by decide +kernel) (by decide)
+    (ok_of_fst (by decide +kernel))).2.2.2
 
 end HC.C13
